@@ -31,16 +31,17 @@ def install(R):
     R.spec('in_cache', [('c', 'DNSCache'), ('i', 'ident')], 'bool', 'c.cache.has(i.key) and c.cache[i.key].has(i)')
     R.spec('cached', [('c', 'DNSCache'), ('i', 'ident')], 'DNSRecord', 'c.cache[i.key][i]')
 
-    # --- lifetime arithmetic (DESIGN 3.2) --------------------------------------------------------
+    # --- lifetime arithmetic (DESIGN 3.2); each predicate is verified under the property whose statement uses it:
+    # expiry C05, half-life (known answers) and remaining TTL C13, quarter-life (QU replies) C11 -------------------------
     R.contract('zeroconf._dns', 'DNSRecord.is_expired', P, params={'now': 'real'}, returns='bool',
                ensures=['result == (self.created + 1000 * self.ttl <= now)'])
-    R.contract('zeroconf._dns', 'DNSRecord.is_stale', P, params={'now': 'real'}, returns='bool',
+    R.contract('zeroconf._dns', 'DNSRecord.is_stale', 'C13', params={'now': 'real'}, returns='bool',
                ensures=['result == (self.created + 500 * self.ttl <= now)'])
-    R.contract('zeroconf._dns', 'DNSRecord.is_recent', P, params={'now': 'real'}, returns='bool',
+    R.contract('zeroconf._dns', 'DNSRecord.is_recent', 'C11', params={'now': 'real'}, returns='bool',
                ensures=['result == (self.created + 250 * self.ttl > now)'])
     R.contract('zeroconf._dns', 'DNSRecord.get_expiration_time', P, params={'percent': 'int'}, returns='real',
                ensures=['result == self.created + 10 * percent * self.ttl'])
-    R.contract('zeroconf._dns', 'DNSRecord.get_remaining_ttl', P, params={'now': 'real'}, returns='real',
+    R.contract('zeroconf._dns', 'DNSRecord.get_remaining_ttl', 'C13', params={'now': 'real'}, returns='real',
                ensures=['result == ite(self.created + 1000 * self.ttl - now < 0, 0, (self.created + 1000 * self.ttl - now) / 1000)'])
     R.contract('zeroconf._dns', 'DNSRecord.set_created_ttl', P, params={'created': 'real', 'ttl': 'real'},
                modifies=['self.created', 'self.ttl'], ensures=['self.created == created', 'self.ttl == ttl'])
